@@ -264,6 +264,7 @@ func parseType(remoteType IntrospectionQueryFullType, kinds map[string]string) *
 			definition.EnumValues = append(definition.EnumValues, &ast.EnumValueDefinition{
 				Name:        value.Name,
 				Description: value.Description,
+				Directives:  parseDeprecation(value.IsDeprecated, value.DeprecationReason),
 			})
 		}
 	}
@@ -278,6 +279,7 @@ func parseType(remoteType IntrospectionQueryFullType, kinds map[string]string) *
 			Type:        parseTypeRef(&field.Type),
 			Description: field.Description,
 			Arguments:   parseArgList(field.Args, kinds),
+			Directives:  parseDeprecation(field.IsDeprecated, field.DeprecationReason),
 		})
 	}
 
@@ -289,6 +291,27 @@ func parseType(remoteType IntrospectionQueryFullType, kinds map[string]string) *
 	definition.Fields = fields
 
 	return definition
+}
+
+// parseDeprecation rebuilds the @deprecated directive of a field or enum value
+func parseDeprecation(isDeprecated bool, reason *string) ast.DirectiveList {
+	if !isDeprecated {
+		return nil
+	}
+
+	directive := &ast.Directive{Name: "deprecated"}
+	if reason != nil {
+		directive.Arguments = ast.ArgumentList{{
+			Name: "reason",
+			Value: &ast.Value{
+				Position: &ast.Position{},
+				Raw:      *reason,
+				Kind:     ast.StringValue,
+			},
+		}}
+	}
+
+	return ast.DirectiveList{directive}
 }
 
 func parseInputField(field IntrospectionInputValue, kinds map[string]string) *ast.FieldDefinition {
@@ -569,7 +592,7 @@ type IntrospectionQueryFullTypeField struct {
 	Args              []IntrospectionInputValue `json:"args"`
 	Type              IntrospectionTypeRef      `json:"type"`
 	IsDeprecated      bool                      `json:"isDeprecated"`
-	DeprecationReason string                    `json:"deprecationReason"`
+	DeprecationReason *string                   `json:"deprecationReason"`
 }
 
 type IntrospectionQueryFullType struct {
@@ -584,10 +607,10 @@ type IntrospectionQueryFullType struct {
 }
 
 type IntrospectionQueryEnumDefinition struct {
-	Name              string `json:"name"`
-	Description       string `json:"description"`
-	IsDeprecated      bool   `json:"isDeprecated"`
-	DeprecationReason string `json:"deprecationReason"`
+	Name              string  `json:"name"`
+	Description       string  `json:"description"`
+	IsDeprecated      bool    `json:"isDeprecated"`
+	DeprecationReason *string `json:"deprecationReason"`
 }
 
 type IntrospectionInputValue struct {
